@@ -2087,4 +2087,121 @@ example :
     Gen.batchAfterValidateGen 3 (Gen.firstBadGen [none, some "FAILED", some "DENIED"]) = some ["UNKNOWN", "FAILED", "UNKNOWN"] := by
   decide
 
+/-! ## 19. the per-entry dispatch of `runRules` and the batch shortcut (services/ruler/golang/runner.go) ↔ which rule the model's endpoints consult (C05)
+
+  The model's endpoints consult one rule each: `signGeneric` / `multisign` → `onSign`, `signProp` → `onPropose`, `signAtt` → `onAttest`,
+  `signAtts` → `onAttest` or `onAttestBatch` (`rulesKeyed`).  In the Go the endpoints hand an ACTION string to the ruler and the `switch action`
+  of `runRules` picks the rules method.  `dispatchTableGen` is that switch as a table. -/
+
+/-- the rules methods that approve a signature -/
+def signingRules : List String := ["OnSign", "OnSignBeaconProposal", "OnSignBeaconAttestation", "OnSignBeaconAttestations"]
+
+/-- the whole regenerated table: nine arms, in source order -/
+theorem dispatch_table_is_source :
+    Gen.dispatchTableGen = [
+      ("Sign", "*rules.SignData", "OnSign"),
+      ("Sign beacon proposal", "*rules.SignBeaconProposalData", "OnSignBeaconProposal"),
+      ("Sign beacon attestation", "*rules.SignBeaconAttestationData", "OnSignBeaconAttestation"),
+      ("Access account", "*rules.AccessAccountData", "OnListAccounts"),
+      ("Lock wallet", "*rules.LockWalletData", "OnLockWallet"),
+      ("Unlock wallet", "*rules.UnlockWalletData", "OnUnlockWallet"),
+      ("Lock account", "*rules.LockAccountData", "OnLockAccount"),
+      ("Unlock account", "*rules.UnlockAccountData", "OnUnlockAccount"),
+      ("Create account", "*rules.CreateAccountData", "OnCreateAccount")] := rfl
+
+/-- **Which rule answers which signing action.**  The arm a Go `switch` takes for an action is the FIRST whose constant equals it
+    (`List.lookup`): for the model's `opSign` that arm asserts `*rules.SignData` and calls `OnSign`; `opPropose` → `OnSignBeaconProposal`;
+    `opAttest` → `OnSignBeaconAttestation`.  No action value occurs in two arms, and the arms that name a signing rule at all are exactly
+    these three — each signing rule is reachable through exactly one action, and `OnSignBeaconAttestations` through none (only through
+    the batch shortcut, `dispatch_shape_is_source`).  This is what Props/C05.lean presupposes: the generic endpoints' action reaches
+    `OnSign` and nothing else. -/
+theorem dispatch_signing_actions :
+    Gen.dispatchTableGen.lookup opSign = some ("*rules.SignData", "OnSign") ∧
+    Gen.dispatchTableGen.lookup opPropose = some ("*rules.SignBeaconProposalData", "OnSignBeaconProposal") ∧
+    Gen.dispatchTableGen.lookup opAttest = some ("*rules.SignBeaconAttestationData", "OnSignBeaconAttestation") ∧
+    (Gen.dispatchTableGen.map (·.1)).Nodup ∧
+    Gen.dispatchTableGen.filter (fun e => signingRules.contains e.2.2) =
+      [(opSign, "*rules.SignData", "OnSign"), (opPropose, "*rules.SignBeaconProposalData", "OnSignBeaconProposal"),
+       (opAttest, "*rules.SignBeaconAttestationData", "OnSignBeaconAttestation")] ∧
+    (∀ e ∈ Gen.dispatchTableGen, e.1 ≠ opSign → e.1 ≠ opPropose → e.1 ≠ opAttest → e.2.2 ∉ signingRules) := by
+  decide
+
+/-- **One entry, the regular case**: a non-nil entry, no metadata error, an action the switch names (`k` = its line in the table) and data
+    of the asserted type — the entry's result is the rule's verdict, except that UNKNOWN becomes FAILED. -/
+theorem dispatchEntry_eq_model (k : Nat) (hk : k < Gen.dispatchTableGen.length) (v : Verdict) :
+    Gen.dispatchEntryGen false false (some k) true (verdictCode v) = verdictCode (if v = .unknown then .failed else v) := by
+  have h9 : Gen.dispatchTableGen.length = 9 := rfl
+  rw [h9] at hk
+  have hc : k = 0 ∨ k = 1 ∨ k = 2 ∨ k = 3 ∨ k = 4 ∨ k = 5 ∨ k = 6 ∨ k = 7 ∨ k = 8 := by omega
+  rcases hc with rfl | rfl | rfl | rfl | rfl | rfl | rfl | rfl | rfl <;> cases v <;> rfl
+
+/-- … which is never UNKNOWN -/
+theorem dispatchEntry_known (k : Nat) (hk : k < Gen.dispatchTableGen.length) (v : Verdict) :
+    Gen.dispatchEntryGen false false (some k) true (verdictCode v) ≠ verdictCode .unknown := by
+  rw [dispatchEntry_eq_model k hk v]; cases v <;> decide
+
+/-- **One entry, every other case** (all inputs): a nil entry keeps the UNKNOWN the list was created with; a metadata error, data of another
+    type (whatever the action), and an action no arm names (`none`, or an index beyond the table: the `default` arm) give FAILED — no rule is
+    asked (`ruleVerdict` is irrelevant). -/
+theorem dispatchEntry_refusals (m t : Bool) (a : Option Nat) (c : Nat) :
+    Gen.dispatchEntryGen true m a t c = verdictCode .unknown ∧
+    Gen.dispatchEntryGen false true a t c = verdictCode .failed ∧
+    Gen.dispatchEntryGen false false a false c = verdictCode .failed ∧
+    ((∀ k, a = some k → Gen.dispatchTableGen.length ≤ k) → Gen.dispatchEntryGen false false a t c = verdictCode .failed) := by
+  refine ⟨rfl, rfl, ?_, ?_⟩
+  · match a with
+    | none => rfl
+    | some 0 | some 1 | some 2 | some 3 | some 4 | some 5 | some 6 | some 7 | some 8 => rfl
+    | some (k + 9) => rfl
+  · intro h
+    have h9 : Gen.dispatchTableGen.length = 9 := rfl
+    rw [h9] at h
+    match a, h with
+    | none, _ => rfl
+    | some k, h =>
+      have hk := h k rfl
+      match k, hk with
+      | k + 9, _ => rfl
+
+/-- **Composition with the signer's loop** (P15: `signLoopPosAttGen` / `signLoopPosMultiGen` read the ruler's list position by position).
+    A nil entry's UNKNOWN is read as FAILED; so is every other refusal; and in the regular case the position ends — signing errors apart —
+    in `verdictRes v'`, `v'` the dispatched verdict, which is `verdictRes v` of the rule's own verdict: the model's `verdictRes`
+    (`.unknown ↦ .failed`) covers both the ruler's conversion and the signer's. -/
+theorem dispatch_then_signLoop (m t r s e : Bool) (a : Option Nat) (c : Nat) (k : Nat) (hk : k < Gen.dispatchTableGen.length) (v : Verdict) :
+    (Gen.signLoopPosAttGen (Gen.dispatchEntryGen true m a t c) r s e).1 = resCode .failed ∧
+    (Gen.signLoopPosMultiGen (Gen.dispatchEntryGen true m a t c) s e).1 = resCode .failed ∧
+    (Gen.signLoopPosAttGen (Gen.dispatchEntryGen false true a t c) r s e).1 = resCode .failed ∧
+    (Gen.signLoopPosMultiGen (Gen.dispatchEntryGen false true a t c) s e).1 = resCode .failed ∧
+    (Gen.signLoopPosAttGen (Gen.dispatchEntryGen false false a false c) r s e).1 = resCode .failed ∧
+    (Gen.signLoopPosMultiGen (Gen.dispatchEntryGen false false a false c) s e).1 = resCode .failed ∧
+    (Gen.signLoopPosAttGen (Gen.dispatchEntryGen false false (some k) true (verdictCode v)) false false false).1 =
+      resCode (verdictRes (if v = .unknown then .failed else v)) ∧
+    (Gen.signLoopPosMultiGen (Gen.dispatchEntryGen false false (some k) true (verdictCode v)) false false).1 =
+      resCode (verdictRes (if v = .unknown then .failed else v)) ∧
+    verdictRes (if v = .unknown then .failed else v) = verdictRes v := by
+  have hr := dispatchEntry_refusals m t a c
+  rw [hr.1, hr.2.1, hr.2.2.1, dispatchEntry_eq_model k hk v]
+  refine ⟨rfl, rfl, rfl, rfl, rfl, rfl, ?_, ?_, ?_⟩ <;> cases v <;> rfl
+
+/-- **The batch shortcut**, as read from `runRulesForMultipleBeaconAttestations`: the list starts UNKNOWN; a missing account, a metadata
+    error and data that is not `*rules.SignBeaconAttestationData` write FAILED at THAT position and `break` out of the extent (the others keep
+    UNKNOWN — the signer's loop reads them as FAILED, `dispatch_then_signLoop`); any FAILED ⇒ the list is returned without asking a rule;
+    otherwise the ONE rules call is `OnSignBeaconAttestations(ctx, metadatas, reqData)` on the asserted data, whose answer is returned
+    unconverted.  Together with `runRulesPath_action` (the shortcut is taken for `opAttest` only) and `dispatch_signing_actions`:
+    the batch attestation rule is reachable through the attestation action only. -/
+theorem dispatch_shape_is_source :
+    Gen.dispatchBatchGen = [
+      "results: created len(rulesData) long, every position rules.UNKNOWN",
+      "missing account: if rulesData[i].AccountName == \"\" { results[i] = rules.FAILED; break }",
+      "metadata error: metadatas[i], err = s.assembleMetadata(…); if err != nil { results[i] = rules.FAILED; break }",
+      "type mismatch: data, ok := rulesData[i].Data.(*rules.SignBeaconAttestationData); if !ok { results[i] = rules.FAILED; break }",
+      "data: reqData := make([]*rules.SignBeaconAttestationData, len(rulesData)); reqData[i] = data (the value asserted to be *rules.SignBeaconAttestationData)",
+      "break: leaves the loop over the extent — the later entries of that extent are not examined and keep rules.UNKNOWN",
+      "early return: for i := range results { if results[i] == rules.FAILED { return results } } (the rule is not called; the other positions are returned as they are)",
+      "rule: return s.rules.OnSignBeaconAttestations(ctx, metadatas, reqData)",
+      "unknown: the list the rule returns is returned as it is — rules.UNKNOWN in it is NOT converted"] ∧
+    Gen.runRulesAttestationActionGen = opAttest ∧
+    Gen.dispatchTableGen.lookup Gen.runRulesAttestationActionGen = some ("*rules.SignBeaconAttestationData", "OnSignBeaconAttestation") := by
+  refine ⟨rfl, by decide, by decide⟩
+
 end Dirk
